@@ -259,6 +259,15 @@ pub fn apply_op(rpu: &mut DoviRpu, op: &str) -> anyhow::Result<()> {
             rpu.remove_mapping();
             Ok(())
         }
+        // srclv:<min|->,<max|->: VdrDmData::change_source_levels (as the editor's min_pq / max_pq do)
+        "srclv" => {
+            let v: Vec<Option<u16>> = parts[1].split(',').map(|x| if x == "-" { None } else { Some(x.parse().unwrap()) }).collect();
+            rpu.modified = true;
+            if let Some(dm) = rpu.vdr_dm_data.as_mut() {
+                dm.change_source_levels(v[0], v[1]);
+            }
+            Ok(())
+        }
         "rmcmv40" => rpu.remove_cmv40_extension_metadata(),
         "conv" => rpu.convert_with_mode(mode_of_idx(parts[1].parse().unwrap())),
         "convu8" => rpu.convert_with_mode(parts[1].parse::<u8>().unwrap()),
